@@ -52,6 +52,12 @@ CHECKS = {
  "C08": ("crashpt", "fault_enumeration", "runtime monitoring with ptrace-level fault injection: strace kills the victim before every state-changing syscall of the operation and fails every call once; a checker process reopens the directory with the real code",
          "For the sampled (pre-state, operation) pairs every syscall boundary of the operation was enumerated: after process death before each state-changing call the directory reopened (with and without preload) with the chain before or after, acknowledged data and retained user snapshots unchanged and the counter not decreased; with each call failing once (ENOSPC; thorough also EIO) no operation reported success over a state other than the complete after-state and none left an unopenable directory; the durability lint (directory fsync after every directory-entry change, O_SYNC metadata temp files) passed on every reference trace.",
          "Process death, not power loss; syscall boundaries of the operation's own thread; pre-states and operations are sampled, boundaries within them are exhaustive.", "DESIGN.md 4/C08"),
+ "C14": ("restfuzz", "exploration", "runtime monitoring: journalled request fuzzing of both REST routers with panic capture, liveness probe and TryLock after every request, child-process death detection",
+         "Held on the request matrix (all routes x methods x body classes x id classes x controller/replica states, each pair on a fresh state, plus drifting sequences): no request terminated the process, made a handler panic, failed to return, left the liveness request unanswered or left the controller/replica mutex held.",
+         "Handlers run in-process through router.ServeHTTP; outbound calls hit loopback addresses that refuse at once or the scripted replicas' stubs.", "DESIGN.md 4/C14"),
+ "C15": ("rpcsim", "exploration", "runtime monitoring: real rpc.Client/Wire/Server against a scripted peer with an independent codec; porcupine linearizability check of end-to-end histories",
+         "Held on the generated scenarios: frames round-tripped unchanged in both directions (also with concurrent writers), every call received exactly the reply generated for its own request under bounded reordering, duplicates and unknown sequence numbers; end-to-end histories through the real server were linearizable per block; after a stall, a late reply, close, reset or garbage every pending and later call failed, no request was sent twice and the failure was reported on the close channel.",
+         "Read/write deadlines 1 s via the production knobs; sync/unmap/ping deadlines are constants (30/40 s) and are exercised once in the thorough tier.", "DESIGN.md 4/C15"),
 }
 
 NOT_YET = "check not built yet in this round (see DESIGN.md build order); no verdict claimed"
@@ -74,6 +80,10 @@ def main():
         "kind_free_text": "real replica engine (replica.Server on ext4, real hole puncher, real fold) + reference model of block image and snapshot chain"},
        {"name": "crashpt", "path": "harness/internal/crashpt", "serves_properties": ["C08", "C10"],
         "kind_free_text": "victim process running one replica operation on its locked main thread under strace (trace, SIGKILL before the k-th call, errno injection) + checker process reopening the directory"},
+       {"name": "restfuzz", "path": "harness/internal/restfuzz", "serves_properties": ["C14", "C17"],
+        "kind_free_text": "real controller/rest and replica/rest routers driven in-process; journal-before-execute, panic capture, liveness + TryLock oracle; action-table matrix and attach rule with the real remote.Factory"},
+       {"name": "rpcsim", "path": "harness/internal/rpcsim", "serves_properties": ["C15"],
+        "kind_free_text": "real rpc.Client / rpc.Wire / rpc.Server over loopback TCP against a scripted peer with an independent frame codec; porcupine for end-to-end histories"},
        {"name": "ctlsim", "path": "harness/internal/ctlsim", "serves_properties": ["C01", "C02", "C03", "C04", "C05", "C09", "C13", "C16", "C18"],
         "kind_free_text": "real controller.Controller over scripted types.Backend fakes (per-call outcome scripts, applied logs, remote.Remote-like monitor channel) + HTTP stubs of the replica REST API"},
      ],
